@@ -11,5 +11,6 @@ pub mod bloom;
 pub mod par;
 pub mod cuckoo;
 pub mod extendpaths;
+pub mod guards;
 
 pub use hashers::{Ev, Key, TableHasher};
